@@ -2329,6 +2329,9 @@ DLLIMPORT int cfg_addlist(cfg_t *cfg, const char *name, unsigned int nvalues, ..
 		return CFG_FAIL;
 	}
 
+	/* appending to the defaults is ok, same as '+=' in a file */
+	opt->flags &= ~CFGF_RESET;
+
 	va_start(ap, nvalues);
 	cfg_addlist_internal(opt, nvalues, ap);
 	va_end(ap);
